@@ -104,4 +104,5 @@ def _zero_len_c12(case, v):
 
 @matcher("store_repeated_lazy_source_c05")
 def _store_repeated_c05(case, v):
-    return v.get("cls") == "wrong_value_under_interleaving" and bool(v.get("shared_ancestry")) and v.get("n_pairs", 1) > 1
+    return (v.get("cls") in ("wrong_value_under_interleaving", "output_chunks_not_covered")
+            and bool(v.get("shared_ancestry")) and v.get("n_pairs", 1) > 1)
